@@ -1,6 +1,6 @@
 import NeoModel.Model.Wire.Tx
 /-
-C17 — the JSON (text) form of witness scopes (pkg/core/transaction/witness_scope.go:50-123): `ScopesFromString`
+C17 — the JSON (text) form of witness scopes (pkg/core/transaction/witness_scope.go:50-120, after fix b6b23d8): `ScopesFromString`
 (used by WitnessScope.UnmarshalJSON, hence by the JSON forms of Signer / Transaction / Block and by the RPC `signers`
 parameter) and `scopesToString` (MarshalJSON), as written. Core Lean only.
 -/
@@ -37,18 +37,33 @@ def split : Bytes → Bytes → List Bytes
   | [], cur => [cur.reverse]
   | c :: r, cur => if c = 0x2c then cur.reverse :: split r [] else split r (c :: cur)
 
-/-- the loop of ScopesFromString (witness_scope.go:60-76): a scope after `Global` must be `Global` again; nothing
-stops `Global` from coming AFTER other scopes. -/
-def fold : List Bytes → UInt8 → Bool → Option UInt8
+/-- the loop of ScopesFromString (witness_scope.go:60-68, after fix b6b23d8): every named scope is ORed in. -/
+def fold : List Bytes → UInt8 → Option UInt8
+  | [], acc => some acc
+  | p :: rest, acc =>
+    match lookup (trim p) with
+    | none => none
+    | some sc => fold rest (acc ||| sc)
+
+/-- `ScopesFromString` (after fix b6b23d8): whatever the order, `Global` combined with anything else is refused. -/
+def fromString (s : Bytes) : Option UInt8 :=
+  match fold (split s []) 0 with
+  | none => none
+  | some r =>
+    if r &&& UInt8.ofNat WireLimits.scopeGlobal != 0 && r != UInt8.ofNat WireLimits.scopeGlobal then none else some r
+
+/-- the loop BEFORE fix b6b23d8 (kept for the regression example): a scope after `Global` had to be `Global` again;
+nothing stopped `Global` from coming AFTER other scopes. -/
+def foldOld : List Bytes → UInt8 → Bool → Option UInt8
   | [], acc, _ => some acc
   | p :: rest, acc, isGlobal =>
     match lookup (trim p) with
     | none => none
     | some sc =>
       if isGlobal && sc != UInt8.ofNat WireLimits.scopeGlobal then none
-      else fold rest (acc ||| sc) (isGlobal || sc == UInt8.ofNat WireLimits.scopeGlobal)
+      else foldOld rest (acc ||| sc) (isGlobal || sc == UInt8.ofNat WireLimits.scopeGlobal)
 
-def fromString (s : Bytes) : Option UInt8 := fold (split s []) 0 false
+def fromStringOld (s : Bytes) : Option UInt8 := foldOld (split s []) 0 false
 
 def digits (n : Nat) : Bytes :=
   if n < 10 then [UInt8.ofNat (0x30 + n)]
